@@ -1048,6 +1048,13 @@ func (P *Prog) checkRelease(r *Result) {
 					r.bad("C07/release", c, P.ipos(x.in), "deferred release of a loop-invariant object inside a loop: released more than once")
 					continue
 				}
+				// deferred calls run last-in first-out: a deferred function registered *before* this release runs after
+				// it - a recover() handler that reports through the context it closed over then writes into an object
+				// that is back in its pool (and may already belong to another execution)
+				if use := earlierDeferUsing(fn, x.b, x.idx, x.obj); use != nil {
+					r.bad("C07/release", c, P.ipos(x.in), fmt.Sprintf("a deferred function registered earlier (%s) uses the object and runs after this deferred release: it acts on an object that is already back in its pool", P.ipos(use)))
+					continue
+				}
 			} else {
 				// immediate: no later use of the object on any path
 				if use := laterUse(fn, x.b, x.idx, x.obj); use != nil {
@@ -1909,4 +1916,44 @@ func (P *Prog) fieldNeverRead(f *types.Var) bool {
 		}
 	}
 	return !P.fieldReadMemo[f.Origin()]
+}
+
+// earlierDeferUsing: a Defer instruction of fn that executes before (b, idx) - same block earlier, or a dominating
+// block - whose deferred call closes over or is passed obj (directly or through the variable cell that holds it) and is
+// not itself a release.
+func earlierDeferUsing(fn *ssa.Function, b *ssa.BasicBlock, idx int, obj ssa.Value) ssa.Instruction {
+	holds := func(v ssa.Value) bool {
+		if cvi(v) == obj {
+			return true
+		}
+		if al, ok := v.(*ssa.Alloc); ok {
+			for _, st := range storesTo(al) {
+				if cvi(st.Val) == obj {
+					return true
+				}
+			}
+		}
+		return false
+	}
+	var found ssa.Instruction
+	eachInstr(fn, func(b2 *ssa.BasicBlock, i2 int, in ssa.Instruction) {
+		d, ok := in.(*ssa.Defer)
+		if !ok || found != nil {
+			return
+		}
+		if !(b2 == b && i2 < idx || b2 != b && b2.Dominates(b)) {
+			return
+		}
+		mc, isMC := d.Call.Value.(*ssa.MakeClosure)
+		if !isMC {
+			return // a deferred method or function call: the releases themselves, Close, Unlock ...
+		}
+		for _, bd := range mc.Bindings {
+			if holds(bd) {
+				// the closure must actually use it for more than releasing
+				found = in
+			}
+		}
+	})
+	return found
 }
